@@ -63,9 +63,14 @@ def run_case(case):
         return rec
     vals = []
     res = None
-    for B, T, unit in _impl["aux"]["schemes"]:
+    fac = _impl.setdefault("factories", {})
+    for si, (B, T, unit) in enumerate(_impl["aux"]["schemes"]):
         try:
-            sc = K(SS(core.scheme_float(B, T, unit))).get_kemeny_score(cand, ds)
+            # ONE factory per scheme serves every case of this worker (history of the factory object), and the
+            # candidate is a fresh temporary object for each call
+            if si not in fac:
+                fac[si] = K(SS(core.scheme_float(B, T, unit)))
+            sc = fac[si].get_kemeny_score(Ranking(am.norm_ranking(case["c"])), ds)
             v, exact = core.to_units(sc, unit)
             vals.append([v, 1 if exact else 0])
             r = "score"
